@@ -471,4 +471,17 @@ def wfBlocks {β : Type} (dim : β → Nat) : List (Block β) → Bool
 (a 4x4 block and its placeholder are two list entries for two qubits, so the list has exactly `n` entries) -/
 def Layer.wf {α : Type} (n : Nat) (l : Layer (Mat α)) : Bool := wfBlocks Mat.dim l && l.length == n
 
+/-- the qubit lists of the items `[[M, [q]], [G, [q, q+1]], …]` that a layer becomes when the same matrices are handed to
+the index-based backend item by item (first block on qubit `q`): a 2x2 entry acts on its list position, a 4x4 entry and
+its placeholder (after or before it) on the adjacent ascending pair -/
+def itemQubits {β : Type} (dim : β → Nat) : List (Block β) → Nat → List (List Nat)
+  | [], _ => []
+  | .scalar :: .mat _ :: rest, q => [q, q + 1] :: itemQubits dim rest (q + 2)
+  | .scalar :: _, _ => []
+  | .mat M :: rest, q =>
+    if dim M = 2 then [q] :: itemQubits dim rest (q + 1)
+    else match rest with
+      | .scalar :: rest' => [q, q + 1] :: itemQubits dim rest' (q + 2)
+      | _ => []
+
 end QG.Model.Backend
